@@ -291,14 +291,18 @@ def probe(ctx):
                                 ft = float(U.get_fidelity(torch.tensor(r0), torch.tensor(r1)))
                                 if abs(ft - f_in) > tol:
                                     msgs.append((f'fidelity numpy/torch differ {f_in:.12g} vs {ft:.12g} ({ki},{kj})', abs(ft - f_in)))
-                                if kj == 'full' and np.linalg.eigvalsh(o1).min() > 1e-6:
+                                if np.linalg.eigvalsh(o1).min() > 1e-6:
+                                    # second argument r1 may be rank-deficient (the code clips log at machine eps, i.e. evaluates
+                                    # S(r0 || max(r1,eps))); with a full-rank image o1 monotonicity still holds up to eps*d/lambda_min(o1) < 1e-8
                                     s_in, s_out = U.get_relative_entropy(r0, r1), U.get_relative_entropy(o0, o1)
-                                    if s_out > s_in + TOL * max(1, abs(s_in)):
+                                    rtol = TOL if (kj == 'full' and mineig[id(r1)] > 1e-6) else 1e-7
+                                    if s_out > s_in + rtol * max(1, abs(s_in)):
                                         msgs.append((f'relative entropy increases {s_in:.12g} -> {s_out:.12g} ({ki},{kj})', s_out - s_in))
                                     if s_in < -TOL:
                                         msgs.append((f'relative entropy negative {s_in:.12g} ({ki},{kj})', -s_in))
                                     st = float(U.get_relative_entropy(torch.tensor(r0), torch.tensor(r1)))
-                                    if abs(st - s_in) > TOL * max(1, abs(s_in)):
+                                    # (for a rank-deficient r1 the value is a clipped stand-in for +inf and the two backends clip differently)
+                                    if rtol == TOL and abs(st - s_in) > TOL * max(1, abs(s_in)):
                                         msgs.append((f'relative entropy numpy/torch differ {s_in:.12g} vs {st:.12g}', abs(st - s_in)))
                             ki, r0, o0 = states[i]
                             # anchors that pin the normalisation of the four quantities
@@ -362,7 +366,7 @@ def probe(ctx):
     ctx.extra['probe_worst'] = {k: float(v) for k, v in worst.items()}
     ctx.assumptions.append('probe tolerances: 1e-9 for equivalence of representations and for the inequalities on full-rank states; 1e-6 where a '
                            'square root of a rounding-level eigenvalue enters (fidelity with a rank-deficient input or output state: sqrt(2.2e-16*d) ~ 3e-8 per zero eigenvalue, up to 5 of them, doubled by the final squaring; worst observed 3e-8); '
-                           'relative entropy only asserted for full-rank second argument (it is +inf otherwise; the code clips at machine eps)')
+                           'relative entropy monotonicity asserted whenever the image of the second argument is full rank (min eigenvalue > 1e-6); for a rank-deficient second argument the code evaluates S(rho||max(sigma,eps)), for which monotonicity holds up to eps*d/lambda_min < 1e-8 (tolerance 1e-7 relative)')
 
 
 def search(ctx, hints):
